@@ -3,6 +3,8 @@ package main
 // Calls: models of external functions, inlining, modular contract application.
 
 import (
+	"path"
+	"path/filepath"
 	"fmt"
 	"go/types"
 	"sort"
@@ -62,6 +64,10 @@ func (e *Exec) call(s *State, c *ssa.Call) []Out {
 	}
 	if cl.Fn == nil {
 		return []Out{{St: s, Panic: "call of nil func at " + e.pos(c)}}
+	}
+	if cl.Fn.Parent() == nil && len(cl.Fn.FreeVars) == 0 {
+		// a declared function used as a value: called like a static call (its contract applies)
+		return e.callFn(s, c, cl.Fn, args)
 	}
 	return e.callClosure(s, cl, args)
 }
@@ -437,6 +443,21 @@ func (e *Exec) model(s *State, c *ssa.Call, fn *ssa.Function, full string, args 
 		return ret(Iface{Dyn: errDynType, V: Opaque{Tag: "rtype:" + types.TypeString(iv.Dyn, nil)}})
 	case "dario.cat/mergo.WithTransformers":
 		return ret(Opaque{Tag: "mergo.WithTransformers"})
+	case "path.Ext", "path/filepath.Ext", "path.Base", "path/filepath.Base":
+		t := textArg(args[0])
+		if as, ok := t.concrete(); ok {
+			switch full {
+			case "path.Ext":
+				return ret(lit(path.Ext(as)))
+			case "path/filepath.Ext":
+				return ret(lit(filepath.Ext(as)))
+			case "path.Base":
+				return ret(lit(path.Base(as)))
+			default:
+				return ret(lit(filepath.Base(as)))
+			}
+		}
+		return ret(atom(pureAtomName(full[strings.LastIndex(full, ".")+1:], []string{t.String()})))
 	case "strings.TrimSuffix", "strings.TrimPrefix":
 		t := textArg(args[0])
 		as, ok1 := t.concrete()
@@ -931,6 +952,15 @@ func (e *Exec) applyContract(s *State, c *ssa.Call, fn *ssa.Function, con *Contr
 						rets = append(rets, zeroVal(rt))
 					case p == "error":
 						rets = append(rets, mkErr("from "+con.target()))
+					case p == "new":
+						// a pointer to a new object of the result's element type, zero-valued
+						pt, ok := rt.Underlying().(*types.Pointer)
+						if !ok {
+							unsupported("%s: result alternative new for non-pointer %s", sc.Pos, rt)
+						}
+						r := st2.alloc(zeroVal(pt.Elem()))
+						st2.CellTypes[r.Cell] = pt.Elem()
+						rets = append(rets, r)
 					case p == "pure":
 						// an unknown string determined by the callee and its string arguments
 						var parts []string
